@@ -77,3 +77,43 @@ def jsonable(x):
     if isinstance(x, (list, tuple)):
         return [jsonable(v) for v in x]
     return x
+
+
+def _snap(x):
+    import numpy as np
+    if hasattr(x, "tocoo"):
+        c = x.tocoo(copy=True)
+        return ("sparse", tuple(c.shape), np.array(c.row), np.array(c.col), np.array(c.data, dtype=float))
+    return ("array", np.array(x, dtype=float, copy=True))
+
+
+def _same(a, b):
+    import numpy as np
+    if a[0] != b[0]:
+        return False
+    if a[0] == "array":
+        return a[1].shape == b[1].shape and np.array_equal(a[1], b[1], equal_nan=True)
+    return a[1] == b[1] and all(np.array_equal(x, y) for x, y in zip(a[2:], b[2:]))
+
+
+def caller_mutation_visible(getters):
+    """For each getter (name -> zero-argument callable returning an ndarray or a scipy sparse matrix): call it, keep a copy, change the
+    RETURNED object in place (as the package's own consumers do: get_full_prefactors divides .data of what it is handed), call the
+    getter again on the same object and compare with the copy.  Returns the names whose later result shows the caller's change, i.e.
+    the getter hands out a buffer that it (or another getter) will hand out again.  Holds for every matrix getter of the pinned tree."""
+    import numpy as np
+    bad = []
+    for name, call in getters.items():
+        r1 = call()
+        s1 = _snap(r1)
+        try:
+            buf = r1.data if hasattr(r1, "tocoo") else r1
+            if buf.dtype == bool:
+                buf[...] = ~buf
+            else:
+                buf *= 3.7
+        except Exception:
+            continue            # result is not writable: nothing a caller could change
+        if not _same(_snap(call()), s1):
+            bad.append(name)
+    return bad
